@@ -36,7 +36,8 @@ MIN_REACH = {
     "absent_coordinate_requests": {"quick": 100, "thorough": 1500},
 }
 TIME_BUDGET = {"quick": 400, "thorough": 3400}
-PDIMS = ["a", "b", "c", "d"]
+# (some parameter names coincide with keyword options of xarray's own selection methods: they are ordinary names here)
+PDIMS = ["a", "b", "c", "d", "tolerance", "drop", "method"]
 
 
 def cases(ctx):
